@@ -13,10 +13,11 @@ else
   git -C "$wt" apply "$patch" || { echo "MUTANT $name: patch does not apply"; git -C /repo worktree remove --force "$wt"; exit 2; }
 fi
 ( cd "$wt" && env -u GOTOOLCHAIN -u GOSUMDB GOFLAGS=-mod=mod go build ./... ) || { echo "MUTANT $name: does not compile"; git -C /repo worktree remove --force "$wt"; exit 2; }
-out=$(cd /verif && VERIF_REPO="$wt" VERIF_EVIDENCE_DIR=/tmp/mut-evidence VERIF_REPLAY_DIR=/tmp/mut-replays python3 scripts/run_check.py "$prop" "$tier" 2>&1)
+V=$(cd "$(dirname "$0")/.." && pwd)
+out=$(cd "$V" && VERIF_REPO="$wt" VERIF_EVIDENCE_DIR=/tmp/mut-evidence VERIF_REPLAY_DIR=/tmp/mut-replays python3 scripts/run_check.py "$prop" "$tier" 2>&1)
 rc=$?
 echo "MUTANT $name prop=$prop tier=$tier rc=$rc"
 echo "$out" | grep -E "^VIOLATION|signature=|INFRASTRUCTURE" | head -6
 git -C /repo worktree remove --force "$wt"
-rm -f /verif/bin/alt-*.mod /verif/bin/alt-*.sum /verif/bin/*-alt*.test
+rm -f "$V"/bin/alt-*.mod "$V"/bin/alt-*.sum "$V"/bin/*-alt*.test
 exit $rc
